@@ -67,7 +67,7 @@ func c05Data(r *Rand, labels []string, allowDollar bool) PStmt {
 
 func c05Program(r *Rand) *ProgCase {
 	p := Prog{}
-	org := Pick(r, []int64{-1, 0, 0x7c00, 0xc200})
+	org := Pick(r, []int64{-1, 0, 0x7c00, 0xc200, 0x280000, 0xfff0})
 	if org >= 0 {
 		p.Stmts = append(p.Stmts, PStmt{K: "org", N: org})
 	}
